@@ -111,15 +111,18 @@ def parse_jaqal_string(
                 "override_dict only takes effect with expand_let or expand_let_map"
             )
 
+    # Let constants are substituted first, so that an overriding value is
+    # checked wherever it is used, also in a macro argument that the body
+    # of the macro ignores.
+    if expand_let_map or expand_let:
+        circuit = fill_in_let(circuit, override_dict=override_dict)
+
     if expand_macro:
         # preserve_definitions maintains old API behavior
         circuit = expand_macros(circuit, preserve_definitions=True)
 
     if expand_let_map:
-        circuit = fill_in_let(circuit, override_dict=override_dict)
         circuit = fill_in_map(circuit)
-    elif expand_let:
-        circuit = fill_in_let(circuit, override_dict=override_dict)
 
     if sum(reg.fundamental for reg in circuit.registers.values()) > 1:
         raise JaqalError(f"Circuit has too many registers: {list(circuit.registers)}")
